@@ -7,7 +7,7 @@
    point and, above it, loses any subset of 512-byte sectors (their bytes stay zero).
 
    Model file: definitions only. *)
-Require Import Base.Bytes Wal.Crc32c Wal.Pb.
+Require Import Base.Bytes Wal.Crc32c Wal.CrcTab Wal.Pb.
 Local Open Scope N_scope.
 
 (* ------------------------------------------------------------------ little-endian uint64 *)
